@@ -10,6 +10,7 @@ import SshAudit.Driver.HostKeyOps
 import SshAudit.Driver.SessionOps
 import SshAudit.Driver.MultiOps
 import SshAudit.Driver.OutputOps
+import SshAudit.Driver.FootprintOps
 namespace SshAudit.Driver
 
 def badOp : J := .obj [("err", .str "bad-op".toList)]
@@ -19,7 +20,7 @@ def firstSome (fs : List (String → List String → Option J)) (op : String) (a
 
 def dispatch (op : String) (args : List String) : J :=
   if op = "dump-tables" then dumpTables else
-  match firstSome [wireOp, bannerOp, versionOp, targetOp, policyOp, gexOp, reportOp, hostKeyOp, sessionOp, multiOp, outputOp] op args with
+  match firstSome [wireOp, bannerOp, versionOp, targetOp, policyOp, gexOp, reportOp, hostKeyOp, sessionOp, multiOp, outputOp, footprintOp] op args with
   | some j => j
   | none => badOp
 
